@@ -42,7 +42,8 @@ def ref_outcome(scn):
     return out
 
 
-def gen(rng, n_min=2, n_max=6, groups_max=1, allow_time=True, allow_local=False, cyc=False, ext_names=None):
+def gen(rng, n_min=2, n_max=6, groups_max=1, allow_time=True, allow_local=False, cyc=False, ext_names=None,
+        squeue_faults=0.0):
     n = rng.randint(n_min, n_max)
     names = [chr(65 + i) for i in range(n)] if n <= 26 else [f"J{i}" for i in range(n)]
     order = names[:]
@@ -87,6 +88,11 @@ def gen(rng, n_min=2, n_max=6, groups_max=1, allow_time=True, allow_local=False,
         "locklib": "never", "hooks": {}, "hook_rc": {}, "reports": False, "sbatch_fail": {}, "squeue_fail": 0,
         "faults": False, "nodefaults": False,
     }
+    if squeue_faults and rng.random() < squeue_faults:
+        # one whole status query fails (7 attempts: num_retries=6), somewhere in the run
+        scn["squeue_fail"] = 7
+        scn["squeue_skip"] = rng.randint(0, 3)
+        scn["faults"] = True
     return scn
 
 
